@@ -129,6 +129,24 @@ def bounded_cases(seed, thorough=False):
              'parsed AIF export': pgp.isotherm_from_aif(big.to_aif()).iso_id}
     okb = len(set(ids_b.values())) == 1
     yield {'name': 'construction_route|parse_of_export_eight_decimals_above_one', 'ok': okb, 'detail': '' if okb else str(ids_b)}
+    # the parse of every export (text formats and the Excel workbook) of isotherms whose metadata hold booleans, numbers and text
+    import tempfile
+    rich = dict(meta, is_real=True, degassed=False, cycles=3, dose=2.5, operator='pgv')
+    for kind_, mkr in (('point', lambda: pygaps.PointIsotherm(pressure=p, loading=l, **rich)), ('base', lambda: pygaps.core.baseisotherm.BaseIsotherm(**rich)),
+                       ('model', lambda: mkm_rich(rich))):
+        def mkm_rich(md):
+            return pygaps.ModelIsotherm(model=pgm.get_isotherm_model('Langmuir', parameters={'K': 2.0, 'n_m': 5.0}, pressure_range=(0.0, 1.0), loading_range=(0.0, 5.0), rmse=0.0), **md)
+        try:
+            r0 = mkr()
+            ids_r = {'original': r0.iso_id, 'parsed JSON export': pgp.isotherm_from_json(r0.to_json()).iso_id, 'parsed CSV export': pgp.isotherm_from_csv(r0.to_csv()).iso_id}
+            with tempfile.TemporaryDirectory(prefix='pgv-c05-') as td:
+                xp = os.path.join(td, 'x.xls')
+                pgp.isotherm_to_xl(r0, xp)
+                ids_r['parsed Excel export'] = pgp.isotherm_from_xl(xp).iso_id
+            okr = len(set(ids_r.values())) == 1
+            yield {'name': f"construction_route|parse_of_export_mixed_metadata|{kind_}", 'ok': okr, 'detail': '' if okr else str(ids_r)}
+        except Exception as exc:
+            yield {'name': f"construction_route|parse_of_export_mixed_metadata|{kind_}", 'ok': False, 'detail': f"{type(exc).__name__}: {exc}"[:160]}
     # data in which a point occurs twice (an equilibrium point logged twice): where it occurs, and whether it occurs, is content
     def rep(p_, l_):
         return pygaps.PointIsotherm(pressure=p_, loading=l_, branch=[0] * len(p_), **meta)
